@@ -16,35 +16,56 @@ theorem sort_sections_perm (m : Module) :
     (sort m).sections.length = m.sections.length ∧
     ∀ i (h : i < m.sections.length) (h' : i < (sort m).sections.length),
       ((sort m).sections[i]).kind = (m.sections[i]).kind ∧
-      (((sort m).sections[i]).elems.map Elem.key).Perm ((m.sections[i]).elems.map Elem.key) := sorry
+      (((sort m).sections[i]).elems.map Elem.key).Perm ((m.sections[i]).elems.map Elem.key) :=
+  ⟨length_sortSections 1 m.sections, fun i h h' => sortSections_getElem 1 m.sections i h h'⟩
 
 /-- after `sort()` the uids are 1, 2, 3, ... along the sections (singles consume one uid whether present or not):
     in particular non-zero and strictly increasing along the concatenation of the sections -/
 theorem sort_uids_increasing (m : Module) (hwf : WF m) :
-    ((sort m).all.map (·.uid)).Pairwise (· < ·) ∧ ∀ e ∈ (sort m).all, e.uid ≠ 0 := sorry
+    ((sort m).all.map (·.uid)).Pairwise (· < ·) ∧ ∀ e ∈ (sort m).all, e.uid ≠ 0 := by
+  have h := sortSections_uids 1 m.sections hwf
+  simp only [sort, Module.all, List.append_nil]
+  refine ⟨h.1, fun e he => ?_⟩
+  have := h.2 e.uid (List.mem_map_of_mem he)
+  omega
 
 /-- elements whose uids are non-zero and strictly increasing along the sections are written in exactly that order
     (this is also what a reload produces: the parser numbers elements in file order) -/
 theorem writeOrder_of_increasing (m : Module)
     (h : (m.all.map (·.uid)).Pairwise (· < ·)) (h0 : ∀ e ∈ m.all, e.uid ≠ 0) :
-    writeOrder m = m.all := sorry
+    writeOrder m = m.all := mergeSort_writerLe_of_increasing m.all h h0
 
 /-- **the written order after sort() is the documented canonical order**: sections in sequence, names ascending
     within each named section (payloads, names, tags unchanged) -/
 theorem sort_write_order (m : Module) (hwf : WF m) :
-    (writeOrder (sort m)).map Elem.key = (canonical m).map Elem.key := sorry
+    (writeOrder (sort m)).map Elem.key = (canonical m).map Elem.key := by
+  have h := sort_uids_increasing m hwf
+  rw [writeOrder_of_increasing (sort m) h.1 h.2, canonical_eq]
+  simp only [sort, Module.all, List.append_nil]
+  exact sortSections_key 1 m.sections
 
 /-- within a named section of the sorted module, names ascend -/
 theorem sort_names_ascending (m : Module) (s : Section) (hs : s ∈ (sort m).sections) (hk : s.kind = .byName) :
-    s.elems.Pairwise (fun a b => a.name ≤ b.name) := sorry
+    s.elems.Pairwise (fun a b => a.name ≤ b.name) := sortSections_names 1 m.sections s hs hk
 
 /-- **sorting a second time changes nothing** -/
-theorem sort_idempotent (m : Module) : sort (sort m) = sort m := sorry
+theorem sort_idempotent (m : Module) : sort (sort m) = sort m := by
+  simp only [sort, sortSections_idem]
 
 /-! ## non-vacuity -/
 example :
     let m : Module := { sections := [⟨.single, []⟩, ⟨.keep, [⟨"IF_DATA", "#0", 9, 4, 0⟩]⟩,
         ⟨.byName, [⟨"MEASUREMENT", "b", 3, 7, 1⟩, ⟨"MEASUREMENT", "a", 0, 0, 2⟩]⟩], comments := [⟨"//", "c", 5, 6, 3⟩] }
-    (writeOrder (sort m)).map (·.name) = ["#0", "a", "b"] := sorry
+    (writeOrder (sort m)).map (·.name) = ["#0", "a", "b"] := by
+  intro m
+  have hwf : WF m := by
+    intro s hs hk
+    simp [m] at hs
+    rcases hs with rfl | rfl | rfl <;> simp at hk ⊢
+  have h := sort_uids_increasing m hwf
+  rw [writeOrder_of_increasing (sort m) h.1 h.2]
+  have hba : ¬ ("b" ≤ "a") := by decide
+  simp [m, sort, sortSections, sortSection, assignSeq, Module.all, List.mergeSort, nameLe,
+    List.MergeSort.Internal.splitInTwo, hba]
 
 end A2l.Srt
